@@ -1,19 +1,17 @@
-SPECIFICATION Spec
+SPECIFICATION EnumSpec
 CONSTANTS
   BackwardBound = "PrefixInclusive"
-  Keys <- K8
-  PrefixSet <- P4
-  StartSet <- ST7
+  Keys <- K6
+  PrefixSet <- P2
+  StartSet <- ST4
   DepthSet <- D012
   CutSet <- BB
-  Backends <- AllBackends
+  Backends <- LevelBackend
   MaxLayers = 2
   MaxEntries = 3
   MemBackBound = "PrefixInclusive"
   CutStale = FALSE
   BugTail = FALSE
   Judge = "all"
-CONSTRAINT Bound
 INVARIANTS SeekExact GetExact
-PROPERTIES FlushKeepsView
 CHECK_DEADLOCK FALSE
